@@ -149,6 +149,14 @@ def _case(draw, tier):
             d = ["and", "nary", [leaf(draw, ctx, [0]), d]]
         cond = ["and", "nary", [d, fa] if combine != "d_last" else [fa, d]]
         split = combine == "top_level"
+    twice = False
+    if not per_binding and len(fa) == 3 and klass == "both" and chance(draw, 1, 4):
+        # fa = for_all(u, c); and_(or_(fa, d1), fa) / and_(or_(fa, d1), or_(fa, d2)): ONE for_all object stands at two places
+        d1, d2 = _only(draw, ctx, frees), _only(draw, ctx, frees)
+        first = ["or", "nary", [fa, d1] if draw(st.booleans()) else [d1, fa]]
+        second = fa if draw(st.booleans()) else ["or", "nary", [fa, d2] if draw(st.booleans()) else [d2, fa]]
+        cond = ["and", "nary", [first, second] if draw(st.booleans()) else [second, first]]
+        split, combine, twice = False, "twice", True
     order = list(draw(st.permutations(frees)))
     if story:
         order = [0]
@@ -158,6 +166,8 @@ def _case(draw, tier):
     case = {"ents": recs, "doms": doms, "vars": vars_, "cond": cond, "sel": sel,
             "desc": "entity" if (len(sel) == 1 and draw(st.booleans())) else "set_of", "quant": "an",
             "split_top": split, "dom_kind": "list", "klass": klass, "combine": combine, "u": u}
+    if twice:
+        case["one_forall_object_twice"] = True
     if len(fa) > 3 and fa[3][0] == "attr" and chance(draw, 1, 3):
         case["universal_mentioned_later"] = True
     if bare_truth and len(fa) == 3:
@@ -238,6 +248,9 @@ def check(case) -> Outcome:
         classes.append("comparison_objects_used_in_an_earlier_query")
     if case.get("universal_mentioned_later"):
         classes.append("universal_expression_object_mentioned_in_a_later_query")
+    if case.get("one_forall_object_twice"):
+        feats.append("one_forall_object_at_two_places")
+        classes.append("one_forall_object_at_two_places")
     for caching in (True, False):
         (enable_caching if caching else disable_caching)()
         try:
